@@ -111,6 +111,16 @@ def gen_cases(rng, tier, search):
     # --- shell request sequences
     for _ in range(n_rand // 2):
         cases.append(Case({"kind": "shell", "reqs": gen_reqs(rng)}, None, tags=("shell",)))
+    # --- interleaved connections: a cell on connection A is still awaiting while connection B is served
+    for _ in range(14 if tier == "quick" else 150):
+        nb = rng.randrange(1, 4)
+        cases.append(Case({"kind": "interleave",
+                           "a_cell": rng.choice(["wait_gate()\n41 + 1", "wait_gate()", "y = wait_gate()\n'done'", "wait_gate()\n1/0"]),
+                           "a_idents": rng.randrange(0, 3),
+                           "b": [{"mtype": rng.choice(["kernel_info_request", "is_complete_request", "complete_request",
+                                                       "execute_request", "comm_info_request"]),
+                                  "cell": rng.choice([0, 1, 2, 4, 6]), "idents": rng.randrange(0, 3)} for _ in range(nb)],
+                           "release_after": rng.randrange(0, nb + 1)}, None, tags=("interleave",)))
     for c in cases:
         c.line = None
     return cases
@@ -345,6 +355,103 @@ async def impl_shell(reqs):
     return results
 
 
+async def impl_interleave(p):
+    """two shell connections to one kernel: A's cell awaits a gate while B's requests are served"""
+    import interp_env
+    from custom_components.pyscript.jupyter_kernel import Kernel, ZmqSocket
+    interp_env.setup_stub(asyncio.get_running_loop())
+    g, a = interp_env.new_ctx("jupyter_1")
+    cfg = {"key": KEY.decode(), "signature_scheme": "hmac-sha256", "no_connect_timeout": 3000}
+    k = Kernel(cfg, a, g, "jupyter_1")
+    a.add_logger_handler(k.console)
+    a.get_logger().propagate = False
+    logging.getLogger("custom_components.pyscript.jupyter_kernel").propagate = False
+    logging.getLogger("custom_components.pyscript.jupyter_kernel").setLevel(logging.CRITICAL)
+    hk = asyncio.ensure_future(k.housekeep_run())
+    gate = asyncio.Event()
+    g.global_sym_table["wait_gate"] = gate.wait
+    iow = FakeWriter()
+    k.iopub_socket.add(ZmqSocket(asyncio.StreamReader(), iow, "PUB"))
+    greeting = b"\xff" + b"\x00" * 8 + b"\x7f" + b"\x03" + b"\x00" * 53
+    rbody = b"\x05READY\x0bSocket-Type\x00\x00\x00\x06DEALER"
+    ready = bytes([4, len(rbody)]) + rbody
+    conns = {}
+    for name in ("A", "B"):
+        rd, wr = asyncio.StreamReader(), FakeWriter()
+        rd.feed_data(greeting + ready)
+        conns[name] = (rd, wr, asyncio.ensure_future(k.shell_listen(rd, wr)))
+    for _ in range(10):
+        await asyncio.sleep(0)
+    hs = {n: len(conns[n][1].buf) for n in conns}
+
+    def wire_of(msg_id, mtype, code, nid, tag):
+        header = {"msg_id": msg_id, "msg_type": mtype, "session": "s", "username": "u", "version": "5.3"}
+        content = {"code": code, "cursor_pos": len(code), "store_history": True, "silent": False}
+        frames = [json.dumps(header).encode(), b"{}", b"{}", json.dumps(content).encode()]
+        return [f"{tag}{j}".encode() for j in range(nid)] + [b"<IDS|MSG>", sign(KEY, frames)] + frames
+
+    async def settle(n=60):
+        for _ in range(n):
+            await asyncio.sleep(0)
+        await asyncio.sleep(0.002)
+        for _ in range(n):
+            await asyncio.sleep(0)
+
+    reqs = [{"id": "ma", "conn": "A", "mtype": "execute_request", "code": p["a_cell"]}]
+    conns["A"][0].feed_data(py_encode(wire_of("ma", "execute_request", p["a_cell"], p["a_idents"], "ia")))
+    await settle()
+    for i, b in enumerate(p["b"]):
+        if i == p["release_after"]:
+            gate.set()
+            await settle()
+        code = CELLS[b["cell"]][0]
+        reqs.append({"id": f"mb{i}", "conn": "B", "mtype": b["mtype"], "code": code})
+        conns["B"][0].feed_data(py_encode(wire_of(f"mb{i}", b["mtype"], code, b["idents"], "ib")))
+        await settle()
+    gate.set()
+    await settle(200)
+    outs = []
+    for name in conns:
+        for m in split_msgs(bytes(conns[name][1].buf[hs[name]:])):
+            outs.append(decode_out(m, "shell" + name, None))
+    for m in split_msgs(bytes(iow.buf)):
+        outs.append(decode_out(m, "iopub", None))
+    for t in [c[2] for c in conns.values()] + [hk]:
+        t.cancel()
+        try:
+            await t
+        except BaseException:  # pylint: disable=broad-except
+            pass
+    return reqs, outs
+
+
+def interleave_verdict(c):
+    reqs, outs = c.payload["_reqs"], c.payload["_outs"]
+    ids = {r["id"] for r in reqs}
+    problems = []
+    for o in outs:
+        if o["type"] != "stream" and o["parent"] not in ids:
+            problems.append(f"{o['stream']} {o['type']} carries parent {o['parent']!r}, which is no request of this run")
+    for r in reqs:
+        mine = [o for o in outs if o["parent"] == r["id"]]
+        reply_t = r["mtype"].replace("_request", "_reply")
+        own = [o for o in mine if o["stream"] == "shell" + r["conn"]]
+        other = [o for o in mine if o["stream"].startswith("shell") and o["stream"] != "shell" + r["conn"]]
+        if [o["type"] for o in own] != [reply_t]:
+            problems.append(f"request {r['id']} ({r['mtype']}) on connection {r['conn']}: replies with it as parent on its own "
+                            f"connection: {[o['type'] for o in own]}, expected exactly [{reply_t}]")
+        if other:
+            problems.append(f"request {r['id']}: a reply with it as parent went to the other connection")
+        st = [o["content"]["execution_state"] for o in mine if o["stream"] == "iopub" and o["type"] == "status"]
+        if st != ["busy", "idle"]:
+            problems.append(f"request {r['id']} ({r['mtype']}): status broadcasts with it as parent: {st}, expected busy, idle")
+        if r["mtype"] == "execute_request":
+            n_in = sum(1 for o in mine if o["stream"] == "iopub" and o["type"] == "execute_input")
+            if n_in != 1:
+                problems.append(f"request {r['id']}: {n_in} execute_input broadcasts with it as parent")
+    return "; ".join(problems[:3]) if problems else None
+
+
 def split_msgs(buf):
     """independent parser of the bytes a socket wrote -> list of multipart messages"""
     msgs, cur, i = [], [], 0
@@ -492,6 +599,15 @@ async def _run_one(c):
                                           for o in r["outs"]]} for r in results]
         c.line = [shell_line(p["reqs"])]
         c.spec = None
+    elif k == "interleave":
+        reqs, outs = await impl_interleave(p)
+        c.payload["_reqs"] = reqs
+        c.payload["_outs"] = [{kk: (vv if kk != "idents" else [hx(i) for i in vv]) for kk, vv in o.items() if kk != "content"}
+                              | {"content": {"execution_state": o["content"].get("execution_state")} if isinstance(o["content"], dict) else {}}
+                              for o in outs]
+        c.impl = None
+        c.line = []
+        c.spec = None
 
 
 # the generic runner expects one line per case; C19 cases have several -> custom execute
@@ -524,6 +640,8 @@ def verdict(c):
         return None
     if k == "shell":
         return shell_verdict(c)
+    if k == "interleave":
+        return interleave_verdict(c)
     return None
 
 
